@@ -59,6 +59,14 @@ def shapes():
     fine = {273.155: 3.5, 451.237: 1.25, 1000.0: 2.0}
     out.append(('shape H=1.5 S=None Cp=%s range=(250.0, 1500.0)' % fine,
                 lambda: ThermochemGroup(1.5, None, dict(fine), 298.15, (250.0, 1500.0))))
+    # an explicit range that happens to equal the span of the table is still an explicit range
+    span = {300.0: 3.5, 500.0: 0.0, 800.0: -2.25}
+    out.append(('shape H=0.5 S=1.0 Cp=%s range=(300.0, 800.0)' % span,
+                lambda: ThermochemGroup(0.5, 1.0, dict(span), 300.0, (300.0, 800.0))))
+    # small values keep their six digits
+    tiny = {300.0: 1.23456e-05, 600.0: -4.5e-07}
+    out.append(('shape H=3.25e-06 S=-1.5e-05 Cp=%s range=(250.0, 1500.0)' % tiny,
+                lambda: ThermochemGroup(3.25e-06, -1.5e-05, dict(tiny), 298.15, (250.0, 1500.0))))
     close = {300.001: 1.0, 300.004: 2.0, 999.999: 3.0}
     out.append(('shape H=None S=2.0 Cp=%s range=(200.125, 1000.5)' % close,
                 lambda: ThermochemGroup(None, 2.0, dict(close), 298.15, (200.125, 1000.5))))
